@@ -4069,3 +4069,95 @@ def bundle_no_assertion_trips(P, R, L):
     R.once(grd14_manual_inputs, P, R, L, parts=("nonempty",))
     R.once(pair10_builder_slot, P, R, L)
     R.once(ord17_manual_slot, P, R, L)
+
+
+# ------------------------------------------------------------------------------------------- GRD-20 a database is created only when none exists
+def grd20_create_only_when_missing(P, R, L, rule="GRD-20"):
+    """DB::recover initialises a fresh database (new manifest, CURRENT) only on the edge where opening CURRENT failed with
+    the specific error kind NotFound — any other failure to open CURRENT of an existing database must be reported, not
+    answered by starting over (the garbage collection that follows would delete every table file)."""
+    fn = "db::DB::recover"
+    b = P.body(fn)
+    if b is None:
+        return R.missing_anchor(rule, fn)
+    R.analysed(b)
+    init = [c for c in b.calls() if not b.is_cleanup(c.bb) and c.name == "db::DB::initialize_as_new_db"]
+    kind_src = lambda os_: any(o.kind == "call" and o.name in ("errors::DBIOError::kind", "std::io::Error::kind") for o in os_)
+    edges = []
+    for bb in range(b.n):
+        for st in b.blocks[bb]["stmts"]:
+            if st["k"] == "assign" and st["rv"]["k"] == "discr" and kind_src(origins(b, {"k": "copy", "pl": st["rv"]["pl"]})):
+                d = st["pl"]["l"]
+                for sb in range(b.n):
+                    t = b.term(sb)
+                    if t["k"] == "switch" and t["discr"]["k"] in ("copy", "move") and t["discr"]["pl"]["l"] == d:
+                        for v, tg in t["targets"]:
+                            if int(v) == 0 and tg != t.get("otherwise"):      # std::io::ErrorKind::NotFound is the first variant
+                                edges.append((sb, tg))
+    for c in comparisons(b):
+        is_nf = lambda os_: any((o.kind == "const" and isinstance(o.name, str) and "NotFound" in o.name) or
+                                (o.kind == "agg" and (o.name or "").endswith("NotFound")) for o in os_)
+        edges += c.edges_where("eq", kind_src, is_nf)
+    ok = bool(init) and bool(edges) and all(b.must_pass(c.bb, through_edges=edges) for c in init)
+    # ... and only when the caller asked for it
+    cim = []
+    for c in b.calls():
+        if not b.is_cleanup(c.bb) and (c.name or "").endswith("::create_if_missing"):
+            for t in _bt(b, c.dest["l"]):
+                cim += [(t.bb, x) for x in t.ok]
+    ok2 = bool(cim) and all(b.must_pass(c.bb, through_edges=cim) for c in init)
+    R.check(rule, fn + "|new-database-only-when-current-is-missing", ok and ok2, where(b),
+            "initialize_as_new_db is reached only over `open(CURRENT)` failing with ErrorKind::NotFound and `create_if_missing`",
+            "init sites %d, NotFound edges %d, create_if_missing edges %d" % (len(init), len(edges), len(cim)))
+
+
+# ------------------------------------------------------------------------------------------- GRD-21 a failed install removes only the manifest it created
+def grd21_manifest_cleanup(P, R, L, rule="GRD-21"):
+    """VersionSet::log_and_apply: on a failed manifest write the manifest file is removed only when THIS call created
+    it (the flag returned by get_new_version_from_current, evaluated before the file is created). Removing the live
+    manifest CURRENT points at makes the database unopenable."""
+    b = P.body(LOG_AND_APPLY)
+    if b is None:
+        return R.missing_anchor(rule, LOG_AND_APPLY)
+    R.analysed(b)
+    GNV = "versioning::version_set::VersionSet::get_new_version_from_current"
+    rms = [c for c in b.calls() if not b.is_cleanup(c.bb) and (c.declared_name or "").endswith("FileSystem::remove_file")
+           and any(o.kind == "call" and (o.name or "").endswith("::get_manifest_file_path") for o in origins(b, c.args[1]))]
+    flag_edges = []
+    for l in range(len(b.locals)):
+        if b.local_ty(l) != "bool":
+            continue
+        os_ = origins(b, {"k": "copy", "pl": {"l": l, "p": []}})
+        if os_ and all(o.kind == "call" and o.name == GNV for o in os_):
+            for t in _bt(b, l):
+                flag_edges += [(t.bb, x) for x in t.ok]
+    ok = bool(rms) and bool(flag_edges) and all(b.must_pass(c.bb, through_edges=flag_edges) for c in rms)
+    R.check(rule, LOG_AND_APPLY + "|removes-only-the-manifest-it-created", ok, where(b),
+            "remove_file(manifest path) lies behind the true edge of the created-a-new-manifest flag returned by get_new_version_from_current",
+            "manifest removal sites %d, flag edges %d" % (len(rms), len(flag_edges)))
+    g = P.body(GNV)
+    if g is None:
+        return R.missing_anchor(rule, GNV)
+    R.analysed(g)
+    # the flag is `maybe_manifest_file.is_none()` evaluated before the manifest is created / stored
+    okf, det = False, "no Ok((version, flag)) tuple"
+    stores = [s[0] for s in field_stores(g, "maybe_manifest_file")]
+    for bb in _ok_blocks(g):
+        for st in g.blocks[bb]["stmts"]:
+            if st["k"] == "assign" and st["pl"]["l"] == 0 and st["rv"]["k"] == "aggregate" and st["rv"].get("variant") == "Ok":
+                tup = st["rv"]["ops"][0]
+                if tup["k"] not in ("copy", "move"):
+                    continue
+                for d in g.defs().get(tup["pl"]["l"], []):
+                    if d[0] == "stmt" and d[3]["rv"]["k"] == "aggregate" and d[3]["rv"]["ak"] == "tuple" and len(d[3]["rv"]["ops"]) == 2:
+                        os_ = origins(g, d[3]["rv"]["ops"][1])
+                        sites = [o.site for o in os_ if o.kind == "call" and o.name == "std::option::Option::is_none" and o.site is not None
+                                 and any("maybe_manifest_file" in x.path for x in origins(g, o.site.args[0]))]
+                        if sites and len(sites) == len(os_):
+                            early = all(not any(s.bb in g.reachable(x) for x in stores) for s in sites)
+                            okf = early
+                            det = "flag = maybe_manifest_file.is_none() at line %s, %s the store of the new manifest writer" % (
+                                sites[0].line, "before" if early else "AFTER")
+                        else:
+                            det = "flag origins %s" % [(o.kind, o.name) for o in os_]
+    R.check(rule, GNV + "|flag-means-created-here", okf, where(g), "the flag is `maybe_manifest_file.is_none()` sampled before this call creates the manifest", det)
